@@ -39,6 +39,16 @@ func init() {
 	// the main thread
 	if len(os.Args) > 1 && strings.HasPrefix(os.Args[1], "child-") {
 		runtime.LockOSThread()
+		setZone(os.Getenv("C25_TZOFF"))
+	}
+}
+
+// setZone makes time.Local a fixed zone east of UTC by off seconds (the driver runs with TZ=UTC)
+func setZone(off string) {
+	if v, err := strconv.Atoi(off); err == nil && v != 0 {
+		time.Local = time.FixedZone("C25", v)
+	} else {
+		time.Local = time.UTC
 	}
 }
 
@@ -1016,6 +1026,7 @@ func coqCase(in *Input, dst, src []treeEntry, probe []string, probeTS []int64, n
 		pts = append(pts, fmt.Sprint(t))
 	}
 	fmt.Fprintf(&sb, "\n  [%s]", strings.Join(pts, "; "))
+	fmt.Fprintf(&sb, "\n  (%d)", in.TZOff)
 	ns := make([]string, len(names))
 	for i, n := range names {
 		ns[i] = fmt.Sprintf("(%s, %d, %s, %s)", vhlib.CoqString(n.Iface), n.TS, coqBlocks(n.Blocks), vhlib.CoqString(n.Name))
